@@ -945,3 +945,58 @@ Proof.
     destruct (run_ext _ _ _ _ I H) as (_ & _ & E). destruct (E _ _ G) as (x & Gx & _ & Wx & _).
     eapply wid_inj; [exact I'| exact G' | exact Gx | exact W' | apply Wx; exact W].
 Qed.
+
+(* ====================================================================================== *)
+(* the caller's id on every arm of the select                                             *)
+(* ====================================================================================== *)
+(* whatever arm an exchange left its select through: if it holds a message, that message carries the caller's id and
+   is a received message with the exchange's own wire id *)
+Theorem restored_id_every_arm tcp q0 s t th r :
+  q0 <= 65536 -> reachable tcp q0 s ->
+  pl_tget s t = Some th -> pc_result (pl_tpc th) = Some (PlRMsg r) ->
+  pl_mhid r = pl_cid th /\
+  exists w, pl_twid th = Some w /\ In (pl_with_id r w) (pl_emitted s).
+Proof.
+  intros Hq R G P. pose proof (reachable_inv _ _ _ Hq R) as I.
+  destruct (inv_threads _ _ I _ _ G) as (_ & _ & _ & _ & K5).
+  destruct (K5 _ P) as (w & W & E & C). split; auto. exists w. auto.
+Qed.
+
+(* in a state where BOTH arms are ready (written, reply in the channel, connection closed) each enabled arm leads to
+   a state in which the exchange either holds the reply with the caller's id (reply arm) or holds no message at all
+   (connection arm, context arm) *)
+Theorem both_arms_ready tcp q0 s t th m :
+  q0 <= 65536 -> reachable tcp q0 s ->
+  pl_tget s t = Some th -> pl_tpc th = PlPWaiting -> pl_tchan th = Some m -> pl_closed s = true ->
+  (exists s1 th1, pl_step s (PlLTakeReply t) = Some s1 /\ pl_tget s1 t = Some th1 /\
+     pc_result (pl_tpc th1) = Some (PlRMsg (pl_with_id m (pl_cid th)))) /\
+  (exists s2 th2, pl_step s (PlLConnArm t) = Some s2 /\ pl_tget s2 t = Some th2 /\
+     pc_result (pl_tpc th2) = Some PlRErrClosed).
+Proof.
+  intros Hq R G P Ch Cl. split.
+  - cbn [pl_step]. rewrite G, P, Ch. eexists. eexists. split; [reflexivity|].
+    rewrite tget_tput_same, G. split; reflexivity.
+  - cbn [pl_step]. rewrite G, P, Cl. eexists. eexists. split; [reflexivity|].
+    rewrite tget_tput_same, G. split; reflexivity.
+Qed.
+
+Lemma sched_both_arms c tag cf s : sched s (pl_both_arms c tag cf s).
+Proof.
+  unfold pl_both_arms. cbv zeta.
+  set (s1 := fold_left pl_exec _ s).
+  assert (H1 : sched s s1) by (apply sched_fold; apply sched_exec).
+  set (s2 := match pl_tget s1 (pl_nthreads s) with Some _ => _ | None => _ end).
+  assert (H2 : sched s1 s2).
+  { unfold s2. destruct (pl_tget s1 (pl_nthreads s)) as [th|]; [|apply sched_refl].
+    destruct (pl_seen_wid th); [|apply sched_refl]. apply sched_fold. apply sched_exec. }
+  eapply sched_trans; [exact H1|]. eapply sched_trans; [exact H2|].
+  eapply sched_trans; [apply sched_exec|]. eapply sched_trans; [|apply sched_settle_all].
+  destruct cf; [unfold pl_settle_conn_first; apply sched_fold; apply sched_exec|apply sched_settle].
+Qed.
+
+Theorem arms_refines_small tcp q0 evs c tag cf :
+  reachable tcp q0 (pl_both_arms c tag cf (pl_run_history tcp q0 evs)).
+Proof.
+  destruct (big_refines_small tcp q0 evs) as [l0 R]. destruct (sched_both_arms c tag cf (pl_run_history tcp q0 evs)) as [l1 H].
+  exists (l0 ++ l1). eapply run_app; eauto.
+Qed.
